@@ -22,6 +22,8 @@ SelClauses(r) ==
     UNION {
       LET s == r.sel[i] IN
       (IF s.err # "" /\ Feasible(r) THEN {IF s.hist = "other_process" THEN "C12.selection_in_other_process_or_load_raised" ELSE "C12.selection_raised"} ELSE {})
+      \* settings without any connection set "yield a coding with no variables": raising is not yielding a coding
+      \cup (IF s.err # "" /\ ~Feasible(r) THEN {"C12.degenerate_selection_raised"} ELSE {})
       \cup (IF s.err = "" /\ Degenerate(r) /\ s.desc.ndv # <<>> THEN {"C12.degenerate_settings_have_variables"} ELSE {})
       \cup (IF s.err = "" /\ ~s.matrix_cache_ok THEN {"C12.matrix_cache_differs_from_fresh"} ELSE {})
       \cup (IF s.hist = "warm" /\ s.err = "" /\ Cold(r).err = "" /\ s.desc # Cold(r).desc THEN {"C12.selection_cache_differs"} ELSE {})
